@@ -86,6 +86,7 @@ def run(ctx, model):
     from props import logixdrv
     logixdrv.run_reads(ctx, model, "C03")
     logixdrv.run_writes(ctx, model, "C03")
+    logixdrv.run_altered(ctx, model, "C03")
     from props import kernels
     kernels.run_plan(ctx, model, "C03")
     kernels.run_multi(ctx, model, "C03")
